@@ -4,6 +4,7 @@ import (
 	"bytes"
 	"encoding/hex"
 	"fmt"
+	"io"
 	"os"
 	"os/exec"
 	"path/filepath"
@@ -30,6 +31,7 @@ import (
 // observation as ` patch=DISAGREE…`, which no model observation contains.
 
 type c14 struct {
+	ndiff       int
 	left, right []string
 	fi          *mdiff.FileInfo
 	gnu         bool // apply renderings with GNU patch as well (op `oracle patch`)
@@ -66,8 +68,25 @@ func c14fmtFi(fi *mdiff.FileInfo) string {
 
 func (r *c14) diff(mode string) *mdiff.Diff {
 	d := mdiff.New(slices.Clone(r.left), slices.Clone(r.right))
+	// every other time the SAME Diff is also rendered (and the text thrown away) before and between the stages of
+	// the pipeline: formatting is read-only, so what is rendered at the end must not depend on it (a renderer that
+	// caches hunk bodies in the chunks and a merge step that splices stale bodies would)
+	r.ndiff++
+	pre := func() {
+		if r.ndiff%2 == 0 {
+			for _, f := range []mdiff.FormatFunc{mdiff.Unified, mdiff.Normal, mdiff.Context} {
+				d.Format(io.Discard, f, nil)
+			}
+			r.st.Note("rendered-before-the-pipeline-stages-too")
+		}
+	}
+	pre()
 	if mode != "new" {
-		d.AddContext(atoi(mode)).Unify()
+		d.AddContext(atoi(mode))
+		if r.ndiff%4 == 0 {
+			pre()
+		}
+		d.Unify()
 	}
 	return d
 }
